@@ -568,6 +568,20 @@ void *rest_kernel(void *input_ptr) {
                 copy_statistics_to_ref_obj_ect(pcs_ptr, scs_ptr);
             }
 
+            // 8-bit input coded through the 16-bit pipeline: reference pictures are converted back to 8 bit in
+            // pad_ref_and_set_flags(); non-reference pictures need the same before their recon is output
+            if (scs_ptr->static_config.is_16bit_pipeline && !is_16bit &&
+                pcs_ptr->parent_pcs_ptr->is_used_as_reference_flag != EB_TRUE) {
+                EbPictureBufferDesc *src = pcs_ptr->recon_picture16bit_ptr;
+                EbPictureBufferDesc *dst = pcs_ptr->recon_picture_ptr;
+                svt_convert_16bit_to_8bit((uint16_t *)src->buffer_y, src->stride_y, dst->buffer_y, dst->stride_y,
+                                          src->width + (dst->origin_x << 1), src->height + (dst->origin_y << 1));
+                svt_convert_16bit_to_8bit((uint16_t *)src->buffer_cb, src->stride_cb, dst->buffer_cb, dst->stride_cb,
+                                          (src->width + (dst->origin_x << 1)) >> 1, (src->height + (dst->origin_y << 1)) >> 1);
+                svt_convert_16bit_to_8bit((uint16_t *)src->buffer_cr, src->stride_cr, dst->buffer_cr, dst->stride_cr,
+                                          (src->width + (dst->origin_x << 1)) >> 1, (src->height + (dst->origin_y << 1)) >> 1);
+            }
+
             // PSNR and SSIM Calculation.
             // Note: if temporal_filtering is used, memory needs to be freed in the last of these calls
             if (scs_ptr->static_config.stat_report) {
